@@ -1016,7 +1016,7 @@ func c07EmptyWord(o *hx.Out, r *hx.Rng, mul int) {
 }
 
 func genC07(o *hx.Out, r *hx.Rng, tier string, replay string) error {
-	o.Rule = "(d) quoted AND/OR/and/ANDx... as key, value, in value lists, as projection key and in fixed-order lists; (e) bare words over ASCII, letters whose UTF-8 contains 0x85/0xA0, U+0085/U+00A0/U+2003, raw 0x85/0xA0/0xff and the special characters, as key, value, projection key and fixed-list member; " + "(a) the table of unicode.IsSpace over all runes; (b) quoting: every string up to a length bound over the alphabet {\" \\ space ( ) : @ , - * / a 0xff é} as key (with a random value) and as value (with a random key), quoted canonically and by strconv.Quote, parsed as filter key:value and as projection, then matched / projected on a result holding the string; (f) structured expressions: the tree is generated first and printed in the documented syntax (bare or double-quoted words, juxtaposition/AND, OR, -, *, key:(v OR v), parentheses), with the offsets of the keys: quoted keys at every position of AND sequences (bare, parenthesised, negated, as OR operand); every semantic rejection of filters (.config with a literal, a regexp, a value list of 1-3 values, an OR of 2-3 .config terms, quoted; the empty key) at every slot of 8 templates and in random trees; projections as field lists printed with every separator (blank, tab, comma) incl. an unquoted /key after white space only, with orders and fixed lists, and every semantic rejection (.unit, empty key, unknown order, .config with a list) at every position; (c) expressions: grammar-generated valid filters and projections, token soup from a piece list (escapes, regexps, operators, Unicode spaces, semantic corner keys) with byte noise; (g) the quoted EMPTY word \"\" in every syntactic position: as sort order key@\"\" (unknown order) for every kind of key at every position of 1-3 fields with every separator, as projection key, as member of fixed lists, as filter key, value, value-list member and unit (.unit:\"\"), directed and in a second token soup rich in \"\". non-trivial = parses as filter or projection (expressions), non-empty string (quoting)"
+	o.Rule = "(d) quoted AND/OR/and/ANDx... as key, value, in value lists, as projection key and in fixed-order lists; (e) bare words over ASCII, letters whose UTF-8 contains 0x85/0xA0, U+0085/U+00A0/U+2003, raw 0x85/0xA0/0xff and the special characters, as key, value, projection key and fixed-list member; " + "(a) the table of unicode.IsSpace over all runes; (b) quoting: every string up to a length bound over the alphabet {\" \\ space ( ) : @ , - * / a 0xff é} as key (with a random value) and as value (with a random key), quoted canonically and by strconv.Quote, parsed as filter key:value and as projection, then matched / projected on a result holding the string; (f) structured expressions: the tree is generated first and printed in the documented syntax (bare or double-quoted words, juxtaposition/AND, OR, -, *, key:(v OR v), parentheses), with the offsets of the keys: quoted keys at every position of AND sequences (bare, parenthesised, negated, as OR operand); every semantic rejection of filters (.config with a literal, a regexp, a value list of 1-3 values, an OR of 2-3 .config terms, quoted; the empty key) at every slot of 8 templates and in random trees; projections as field lists printed with every separator (blank, tab, comma) incl. an unquoted /key after white space only, with orders and fixed lists, and every semantic rejection (.unit, empty key, unknown order, .config with a list) at every position; (c) expressions: grammar-generated valid filters and projections, token soup from a piece list (escapes, regexps, operators, Unicode spaces, semantic corner keys) with byte noise; (g) the quoted EMPTY word \"\" in every syntactic position: as sort order key@\"\" (unknown order) for every kind of key at every position of 1-3 fields with every separator, as projection key, as member of fixed lists, as filter key, value, value-list member and unit (.unit:\"\"), directed and in a second token soup rich in \"\". (h) regexps holding \\Q..\\E literal sections (none, one, two or more, empty, with a slash / bracket / parenthesis / backslash inside, a stray \\E, a \\Q never closed) mixed with character classes, groups and escaped slashes, as filter value, value-list member and .unit value, closed, unterminated, with a bad follower and followed by further terms: judged by the delimiter rule of the specification and never-a-hang. non-trivial = parses as filter or projection (expressions), non-empty string (quoting)"
 	// (a) IsSpace table
 	var sp []hx.Sx
 	for c := rune(0); c <= unicode.MaxRune; c++ {
@@ -1168,7 +1168,159 @@ func genC07(o *hx.Out, r *hx.Rng, tier string, replay string) error {
 		}
 		c07Expr(o, b.String(), "soup-empty-word")
 	}
+	// (h) regexps with \Q..\E literal sections in value position; own generator, last,
+	// so that every stream above keeps its cases
+	c07ReQuote(o, r.Split(), tier)
 	return nil
+}
+
+// ---------- regexps with \Q...\E literal sections (kind 7) ----------
+//
+// The text is pre + "/" + s: pre is a well-formed beginning that ends where a
+// value is expected and holds no regexp; s is the regexp body, the closing
+// slash (or none) and what follows.  The body is put together from atoms:
+// \Q..\E sections (none, one, two or more; empty; holding a slash, a bracket, a
+// parenthesis, a backslash), a stray \E, a \Q that is never closed, character
+// classes (with a slash, with "]" first), groups, escaped slashes and plain
+// text.  The evaluator judges the outcome by the specification's delimiter
+// rule (re_scan: the first slash outside [...] and (...) that no backslash
+// hides - \Q and \E are ordinary backslash pairs), and "never a hang / panic".
+
+var c07QSections = []string{`\Qa\E`, `\Qb\E`, `\Qa.b\E`, `\Q\E`, `\Q.*\E`, `\Qab\E`, `\Q+\E`, `\Q\.\E`, `\Q\\E`}
+var c07QTricky = []string{`\Q/\E`, `\Qa/b\E`, `\Q[\E`, `\Q]\E`, `\Q(\E`, `\Q)\E`, `\Q[/\E`, `\Q(/\E`, `\Q\/\E`, `\Qa\Qb\E`, `\Q \E`, `\Q:\E`, `\Q"\E`}
+var c07QOpen = []string{`\Q`, `\Qa`, `\Qab`, `\Qa\`, `\Q[`, `\Qa/b`, `\Q\`}
+var c07QStray = []string{`\E`, `\E\E`, `a\E`, `\Ea`}
+var c07ReClasses = []string{`[ab]`, `[/]`, `[^/]`, `[]/]`, `[a\]/]`, `[a-c]+`, `[\Q]`, `[\E]`, `[[:alpha:]]`}
+var c07ReGroups = []string{`(a|b)`, `(/)`, `(?:x)`, `(a(b)c)`, `(\Qa\E)`, `(\Q)\E)`}
+var c07ReEsc = []string{`\/`, `\\`, `\.`, `a\/b`, `\\\/`, `\[`, `\(`}
+var c07RePlain = []string{`a`, `b`, `x`, `.*`, `a+`, `^`, `$`, `ab`, `.`, `|`}
+
+type c07RQ struct {
+	nq, tricky, open, stray, class, group, esc int
+}
+
+func c07ReBody(r *hx.Rng, st *c07RQ) string {
+	var b strings.Builder
+	n := r.Range(1, 5)
+	for i := 0; i < n; i++ {
+		switch x := r.Intn(20); {
+		case x < 7:
+			b.WriteString(r.Pick(c07QSections))
+			st.nq++
+		case x < 10:
+			b.WriteString(r.Pick(c07QTricky))
+			st.nq++
+			st.tricky++
+		case x < 11:
+			b.WriteString(r.Pick(c07QStray))
+			st.stray++
+		case x < 13:
+			b.WriteString(r.Pick(c07ReClasses))
+			st.class++
+		case x < 14:
+			b.WriteString(r.Pick(c07ReGroups))
+			st.group++
+		case x < 16:
+			b.WriteString(r.Pick(c07ReEsc))
+			st.esc++
+		default:
+			b.WriteString(r.Pick(c07RePlain))
+		}
+	}
+	if r.Chance(0.08) {
+		b.WriteString(r.Pick(c07QOpen))
+		st.open++
+	}
+	return b.String()
+}
+
+// contexts: pre, what closes the context after the regexp, and its name
+var c07ReCtx = [][3]string{
+	{"k:", "", "value"}, {"k:", "", "value"}, {".name:", "", "value"}, {"/k: ", "", "value"}, {`"a b":`, "", "value"},
+	{"-k:", "", "value"}, {"(k:", ")", "value"}, {"j:v k:", "", "value"}, {"j:v OR k:", "", "value"},
+	{"k:(", ")", "list-member"}, {"k:( ", " )", "list-member"}, {"k:(x OR ", ")", "list-member"}, {"k:(", " OR y)", "list-member"},
+	{"k:(x OR ", " OR \"y z\")", "list-member"}, {".name:(", " OR b)", "list-member"},
+	{".unit:", "", "unit"}, {".unit:", "", "unit"}, {".unit:(", ")", "unit"}, {".unit:(ns/op OR ", ")", "unit"}, {".unit:(", " OR B/op)", "unit"},
+	{".config:", "", "value"}, {`"":`, "", "value"},
+}
+
+func c07ReCase(o *hx.Out, pre, s, fam string) {
+	q := pre + "/" + s
+	fp := c07ParseFilter(q)
+	nf := c07NewFilter(q)
+	c := hx.L(hx.I(7), hx.S(pre), hx.S(s), c07Oracle(q), fp, nf)
+	ok := fp.Text()[:2] == "(0"
+	o.Count(fmt.Sprintf("requote %s parse_ok=%v", fam, ok))
+	o.Add(c, c07Input{Kind: "requote:" + fam, Expr: strconv.QuoteToASCII(q), ExprX: fmt.Sprintf("%x", q)}, "r"+q, ok, "regexp-quote-section")
+	c07StopIfHung(o)
+}
+
+func c07ReQuote(o *hx.Out, r *hx.Rng, tier string) {
+	n := 1500
+	if tier == "thorough" {
+		n = 30000
+	}
+	cls := func(c string) { o.Count("class:requote:" + c) }
+	// the documented witnesses, in the three positions
+	wit := []string{`\Qa\E`, `\Qa\E\Qb\E`, `\Qa\E\Qb\E\Qc\E`, `\Qa\Ex\Qb\E`, `\E\Qa\E`, `a\E\Qb\E\Qc\E`, `\Qa`, `\Q`, `\Qa\E\Qb`,
+		`\Qa/b\E`, `\Q/\E`, `\Qa\E/\Qb\E`, `\Qa\E[/]\Qb\E`, `\Qa\E\/\Qb\E`, `[\Q]\Qa\E\Qb\E`, `(\Qa\E|\Qb\E)`, `\Qa\E\Q\E\Qb\E`, `\Q\E\Q\E`,
+		`\Q\\E\Qb\E`, `\Qa\\E`, `\Qa\E\E`, `\Q[\E\Qa/\E`, `\Q(\E\Qa/\E`}
+	for _, w := range wit {
+		for _, cx := range [][3]string{{"k:", "", "value"}, {"k:(", " OR y)", "list-member"}, {"k:(x OR ", ")", "list-member"}, {".unit:", "", "unit"}, {".unit:(", " OR ns/op)", "unit"}} {
+			c07ReCase(o, cx[0], w+"/"+cx[1], "witness-"+cx[2])
+			cls("witness")
+		}
+		c07ReCase(o, "k:", w, "witness-unterminated")
+		c07ReCase(o, "k:", w+"/x", "witness-bad-follower")
+		c07ReCase(o, "k:", w+"/ j:/"+w+"/", "witness-twice")
+	}
+	for i := 0; i < n; i++ {
+		var st c07RQ
+		body := c07ReBody(r, &st)
+		cx := c07ReCtx[r.Intn(len(c07ReCtx))]
+		tail, fam := "/"+cx[1], cx[2]
+		switch x := r.Intn(20); {
+		case x == 0: // no closing slash
+			tail, fam = cx[1], fam+"-unterminated"
+		case x == 1: // something glued to the closing slash
+			tail, fam = "/"+r.Pick([]string{"x", "\\E", "/", "\"", "\\"})+cx[1], fam+"-bad-follower"
+		case x < 5: // a further term, sometimes with a regexp of its own
+			if cx[1] == "" {
+				tail = "/ " + r.Pick([]string{"j:v", "j:/" + c07ReBody(r, &c07RQ{}) + "/", "-j:\"x\"", "OR j:v", "AND j:v"})
+				fam += "-then-term"
+			}
+		}
+		c07ReCase(o, cx[0], body+tail, fam)
+		switch {
+		case st.nq == 0:
+			cls("sections=0")
+		case st.nq == 1:
+			cls("sections=1")
+		default:
+			cls("sections>=2")
+		}
+		if st.tricky > 0 {
+			cls("section-with-slash-bracket-paren")
+		}
+		if st.stray > 0 {
+			cls("stray-E")
+			if st.nq > 0 {
+				cls("stray-E-and-sections")
+			}
+		}
+		if st.open > 0 {
+			cls("Q-without-E")
+		}
+		if st.nq > 0 && st.class > 0 {
+			cls("sections-and-class")
+		}
+		if st.nq > 0 && st.esc > 0 {
+			cls("sections-and-escaped-slash")
+		}
+		if st.nq > 0 && st.group > 0 {
+			cls("sections-and-group")
+		}
+	}
 }
 
 // pieces added for the gap classes (kept apart from c07Pieces so that the soup keeps its distribution)
